@@ -4,9 +4,12 @@ Real gear.time_limited_max_size_cache.TimeLimitedMaxSizeCache on the virtual loo
 time.monotonic_ns owned by the virtual clock.  A configuration is a multiset of lookups
 (key, arrival time, optional controller that cancels this lookup at a given time) and a capacity.
 Inside an execution the environment decides how every load behaves (returns after a yield, returns
-after 1 s, raises after a yield) and the explorer runs every order of runnable callbacks, so a
-cancellation lands before the lookup started, while it waits for a load (its own or a shared one),
-and after the load completed but before the waiting lookup resumed.
+after 1 s, raises after a yield); a cancellation lands before the lookup started, while it waits for a
+load (its own or a shared one), and after the load completed but before the waiting lookup resumed.
+Scheduling model (only schedules real asyncio can produce): the ready queue is strictly FIFO, so a freshly
+created task takes its first step in creation order; every yield of a harness body, every arrival and the
+cancellation are external events which the environment completes in any order, appending the completion at
+the end of the ready queue (timers due at one instant fire in any order too).  All such orders are explored.
 
 Oracle (the four clauses of the statement, nothing else):
   * number of stored entries <= num_slots after every callback;
